@@ -164,6 +164,15 @@ class PropertyRun:
     st_n, st_err = (0, [])
     if hasattr(mod, 'selftest'):
       st_n, st_err = mod.selftest(tier)
+    elif getattr(mod, 'USES_SHIM', True):
+      # translator validation: shim vs real NumPy, bit for bit
+      from symx import selftest as _st
+      st_n, st_err = _st.check_shim(seed)
+      if getattr(mod, 'USES_FAKE_INTERPRETER', False):
+        n2, e2 = _st.check_fake_interpreter()
+        st_n += n2
+        st_err += e2
+      st_err = [f'translator validation failed: {x}' for x in st_err]
     jobs = mod.jobs(tier, seed)
     results = run_jobs(jobs)
     inconclusive = list(st_err)
